@@ -498,19 +498,25 @@ impl Lower for ss::CompuId {
                 body.lower(lo, stack)
             }
             | Compu::Fix(Fix(param, body)) => {
-                // Extract DefId from binder (should be a Var pattern)
                 use ss::ValuePattern as VPat;
-                let def_id = match &lo.statics.vpats[&param] {
-                    | VPat::Var(def) => *def,
-                    | _ => {
-                        let fmt = zydeco_statics::fmt::Formatter::new(lo.scoped, lo.statics);
-                        let param_str = param.ugly(&fmt);
-                        panic!("Fix param must be a variable, found:\n{}", param_str);
-                    }
-                };
                 let body_stack = Bullet.build(lo, site);
-                let body_compu = body.lower(lo, body_stack);
-                SFix { param: def_id, stack, body: body_compu }.build(lo, site)
+                match lo.statics.vpats[&param].clone() {
+                    | VPat::Var(def_id) => {
+                        let body_compu = body.lower(lo, body_stack);
+                        SFix { param: def_id, stack, body: body_compu }.build(lo, site)
+                    }
+                    | _ => {
+                        // Any other irrefutable binder (`_`, an alias, ...) observes the
+                        // recursive thunk through a fresh variable bound by the fixed point.
+                        let def_id = lo.alloc_projection_def();
+                        let binder = param.lower(lo, ());
+                        let bindee = def_id.build(lo, None);
+                        let body_compu = body.lower(lo, body_stack);
+                        let body_compu =
+                            Let { binder, bindee, tail: body_compu }.build(lo, None);
+                        SFix { param: def_id, stack, body: body_compu }.build(lo, site)
+                    }
+                }
             }
             | Compu::Force(Force(body)) => {
                 let body = body.lower(lo, ());
